@@ -43,23 +43,54 @@ type sched struct {
 	MaxGap     int               `json:"maxGap"`
 }
 
+// world is one detector that tracks several peers. Every call is recorded once per peer: as the call itself
+// in the view of the peer it names and as "Other" (with that peer's window read back) in the view of every
+// other peer. A view is a single-peer trace for TraceF.tla.
 type world struct {
-	d    *gossip.VerifAccrual
-	w, b int
-	now  time.Time
-	last time.Time
+	d     *gossip.VerifAccrual
+	w, b  int
+	now   time.Time
+	cur   int // the peer the next call names
+	last  []time.Time
+	views [][]*Step
 }
+
+// "s" is only named when a recorded view of "q" or "r" is replayed (there it stands for "peer")
+var peerNames = []string{"peer", "q", "r", "s"}
+
+const otherPeers = 2
 
 func newWorld(w, b int) *world {
 	return &world{
 		d: gossip.NewVerifAccrual(time.Duration(b)*unit, w), w: w, b: b,
-		now: time.Unix(1700000000, 0),
+		now:   time.Unix(1700000000, 0),
+		last:  make([]time.Time, len(peerNames)),
+		views: make([][]*Step, len(peerNames)),
 	}
 }
 
-func (x *world) observe(s *Step) {
+// record appends the call to the view of the peer it names and an "Other" line to every other view.
+func (x *world) record(s *Step) *Step {
+	if s == nil {
+		return nil
+	}
+	x.observePeer(s, x.cur)
+	x.views[x.cur] = append(x.views[x.cur], s)
+	for i := range peerNames {
+		if i != x.cur {
+			o := &Step{Op: "Other", Cmd: fmt.Sprintf(`["Other",%q,%s]`, peerNames[x.cur], s.Cmd)}
+			x.observePeer(o, i)
+			x.views[i] = append(x.views[i], o)
+		}
+	}
+	return s
+}
+
+func (x *world) observe(s *Step) { x.observePeer(s, x.cur) }
+
+func (x *world) observePeer(s *Step, peer int) {
 	s.W, s.B = x.w, x.b
-	iv, idx, full, sum, last, ok := x.d.Window("peer")
+	iv, idx, full, sum, last, ok := x.d.Window(peerNames[peer])
 	s.Buf = make([]int, x.w)
 	if ok {
 		for i, v := range iv {
@@ -75,29 +106,49 @@ func (x *world) observe(s *Step) {
 
 func (x *world) report(gap int) *Step {
 	s := &Step{Op: "Report", Gap: gap, Cmd: fmt.Sprintf(`["Report",%d]`, gap)}
-	if x.last.IsZero() {
-		x.last = x.now
+	if x.last[x.cur].IsZero() {
+		x.last[x.cur] = x.now
 	} else {
-		x.last = x.last.Add(time.Duration(gap) * unit)
+		x.last[x.cur] = x.last[x.cur].Add(time.Duration(gap) * unit)
 	}
-	x.d.ReportAt("peer", x.last)
-	x.observe(s)
-	return s
+	x.d.ReportAt(peerNames[x.cur], x.last[x.cur])
+	return x.record(s)
 }
 
-func (x *world) query(d int) *Step {
-	if x.last.IsZero() {
-		return nil
-	}
-	s := &Step{Op: "Query", Gap: d, Cmd: fmt.Sprintf(`["Query",%d]`, d)}
-	lvl := x.d.LevelAt("peer", x.last.Add(time.Duration(d)*unit))
+func (x *world) level(s *Step, t time.Time) {
+	lvl := x.d.LevelAt(peerNames[x.cur], t)
 	if math.IsNaN(lvl) || math.IsInf(lvl, 0) {
 		s.Nan = true
 	} else {
 		s.Level = int(math.Round(lvl * 10000))
 	}
-	x.observe(s)
-	return s
+}
+
+func (x *world) query(d int) *Step {
+	if x.last[x.cur].IsZero() {
+		return nil
+	}
+	s := &Step{Op: "Query", Gap: d, Cmd: fmt.Sprintf(`["Query",%d]`, d)}
+	x.level(s, x.last[x.cur].Add(time.Duration(d)*unit))
+	return x.record(s)
+}
+
+// queryNew asks for the level of a peer that has no window: the detector counts the query as its first arrival.
+func (x *world) queryNew() *Step {
+	if !x.last[x.cur].IsZero() {
+		return nil
+	}
+	s := &Step{Op: "QueryNew", Cmd: `["FirstQuery"]`}
+	x.last[x.cur] = x.now
+	x.level(s, x.now)
+	return x.record(s)
+}
+
+func (x *world) remove() *Step {
+	s := &Step{Op: "Remove", Cmd: `["Remove"]`}
+	x.d.Remove(peerNames[x.cur])
+	x.last[x.cur] = time.Time{}
+	return x.record(s)
 }
 
 func num(v interface{}) int {
@@ -140,47 +191,120 @@ func main() {
 		byOp[s.Op]++
 		_ = enc.Encode(s)
 	}
-	reset := func(x *world) {
-		s := &Step{Op: "Reset", Cmd: `["Reset"]`}
-		x.observe(s)
-		emit(s)
-		behaviours++
+	// flush writes the views of the peers that were named by at least one call, each as a behaviour of its own
+	flush := func(x *world) {
+		for i, v := range x.views {
+			own := false
+			for _, s := range v {
+				own = own || s.Op != "Other"
+			}
+			if !own && i != 0 {
+				continue
+			}
+			r := &Step{Op: "Reset", Cmd: fmt.Sprintf(`["Reset",%q]`, peerNames[i]), W: x.w, B: x.b, Buf: make([]int, x.w)}
+			emit(r)
+			behaviours++
+			for _, s := range v {
+				emit(s)
+			}
+		}
 	}
 	rng := rand.New(rand.NewSource(*seed))
 	queries := func(x *world, maxGap int) {
 		// the level at the moment of arrival, shortly after, around the threshold and far beyond
 		for _, d := range []int{0, 1, rng.Intn(maxGap + 1), maxGap, 20*maxGap + 1} {
-			emit(x.query(d))
+			x.query(d)
 		}
 	}
-	for _, beh := range sf.Behaviours {
+	// other makes a call that names another peer: the peer under test must not notice
+	other := func(x *world, maxGap int) {
+		keep := x.cur
+		x.cur = 1 + rng.Intn(otherPeers)
+		switch k := rng.Intn(10); {
+		case k < 6:
+			x.report(1 + rng.Intn(maxGap))
+		case k < 8:
+			if x.query(rng.Intn(2*maxGap)) == nil {
+				x.queryNew()
+			}
+		default:
+			x.remove()
+		}
+		x.cur = keep
+	}
+	var exec func(x *world, a []interface{}, probe bool)
+	exec = func(x *world, a []interface{}, probe bool) {
+		switch a[0] {
+		case "Report":
+			x.report(num(a[1]))
+		case "Query":
+			x.query(num(a[1]))
+			return
+		case "FirstQuery":
+			x.queryNew()
+		case "Remove":
+			x.remove()
+			return
+		case "Other": // a recorded view being replayed
+			name, _ := a[1].(string)
+			inner, _ := a[2].([]interface{})
+			keep := x.cur
+			x.cur = len(peerNames) - 1
+			for i, n := range peerNames[1:] {
+				if n == name {
+					x.cur = i + 1
+				}
+			}
+			if len(inner) > 0 {
+				exec(x, inner, false)
+			}
+			x.cur = keep
+			return
+		default:
+			return
+		}
+		if probe {
+			queries(x, sf.MaxGap)
+		}
+	}
+	for bi, beh := range sf.Behaviours {
 		x := newWorld(sf.W, sf.B)
-		reset(x)
 		for _, a := range beh {
-			switch a[0] {
-			case "Report":
-				emit(x.report(num(a[1])))
-				queries(x, sf.MaxGap)
-			case "Query":
-				emit(x.query(num(a[1])))
+			exec(x, a, true)
+			// every other behaviour is interleaved with calls that name other peers
+			for bi%2 == 1 && rng.Intn(2) == 0 {
+				other(x, sf.MaxGap)
 			}
 		}
+		flush(x)
 	}
 	for i := 0; i < sf.Walks; i++ {
 		x := newWorld(sf.W, sf.B)
-		reset(x)
 		base := 1 + rng.Intn(sf.MaxGap)
 		for d := 0; d < sf.Depth; d++ {
 			gap := 1 + rng.Intn(sf.MaxGap)
 			if rng.Intn(3) > 0 {
 				gap = base // mostly steady arrivals
 			}
-			emit(x.report(gap))
+			switch k := rng.Intn(40); {
+			case k == 0:
+				x.remove()
+			case k == 1:
+				if x.queryNew() == nil {
+					x.report(gap)
+				}
+			default:
+				x.report(gap)
+			}
 			if rng.Intn(4) == 0 {
 				queries(x, sf.MaxGap)
 			}
+			for i%2 == 1 && rng.Intn(3) == 0 {
+				other(x, sf.MaxGap)
+			}
 		}
 		queries(x, sf.MaxGap)
+		flush(x)
 	}
 	if *statsPath != "" {
 		b, _ := json.Marshal(map[string]interface{}{"steps": steps, "behaviours": behaviours, "by_op": byOp})
